@@ -5,22 +5,24 @@
 #pragma once
 #include <algorithm>
 #include <cstdint>
+#include <chrono>
 #include <cstring>
 #include <optional>
 #include <string>
 #include <vector>
 #include "bitserializer/bit_serializer.h"
 #include "bitserializer/types/std/vector.h"
+#include "bitserializer/types/std/chrono.h"
 
 namespace vm {
 
 using namespace BitSerializer;
 
-enum class K : uint8_t { Null, Bool, I8, U8, I16, U16, I32, U32, I64, U64, F32, F64, Str, Str16, Str32, WStr, Bin, Arr, Obj, COUNT };
+enum class K : uint8_t { Null, Bool, I8, U8, I16, U16, I32, U32, I64, U64, F32, F64, Str, Str16, Str32, WStr, Bin, Arr, Obj, Ts, COUNT };
 
 inline const char* KName(K k)
 {
-	static const char* n[] = { "null", "bool", "i8", "u8", "i16", "u16", "i32", "u32", "i64", "u64", "f32", "f64", "str", "str16", "str32", "wstr", "bin", "arr", "obj" };
+	static const char* n[] = { "null", "bool", "i8", "u8", "i16", "u16", "i32", "u32", "i64", "u64", "f32", "f64", "str", "str16", "str32", "wstr", "bin", "arr", "obj", "ts" };
 	return n[static_cast<int>(k)];
 }
 inline bool IsScalar(K k) { return k <= K::F64; }
@@ -78,6 +80,7 @@ struct DynNode
 	float f32 = 0; double f64 = 0;
 	std::string s; std::u16string s16; std::u32string s32; std::wstring ws;
 	std::vector<unsigned char> bin;
+	std::chrono::system_clock::time_point tp{};   // K::Ts (binary timestamp in MsgPack, ISO-8601 text elsewhere)
 	std::vector<DynNode> items;     // Arr: elements, Obj: member values
 	std::vector<Key> keys;          // Obj: member keys (parallel to items)
 
@@ -147,6 +150,7 @@ inline void Repr(const DynNode& n, std::string& out)
 	case K::Str32: HexAppend(out, n.s32.data(), n.s32.size() * 4); break;
 	case K::WStr: HexAppend(out, n.ws.data(), n.ws.size() * sizeof(wchar_t)); break;
 	case K::Bin: HexAppend(out, n.bin.data(), n.bin.size()); break;
+	case K::Ts: out += std::to_string(n.tp.time_since_epoch().count()); break;
 	case K::Arr:
 		out.push_back('[');
 		for (auto& c : n.items) { Repr(c, out); out.push_back(','); }
@@ -189,6 +193,7 @@ inline void SetMarker(DynNode& t)
 	t.b = true; t.i8 = 0x55; t.u8 = 0x55; t.i16 = 0x5555; t.u16 = 0x5555; t.i32 = 0x55555555; t.u32 = 0x55555555u;
 	t.i64 = 0x5555555555555555ll; t.u64 = 0x5555555555555555ull; t.f32 = 1.5f; t.f64 = 1.5; t.s = "\x01marker"; t.s16 = u"\x01marker"; t.s32 = U"\x01marker"; t.ws = L"\x01marker";
 	t.bin = { 1, 2, 3 };
+	t.tp = std::chrono::system_clock::time_point(std::chrono::seconds(0x55555555));
 }
 
 // ------------------------------------------------------------------------------------------------
@@ -222,6 +227,7 @@ void DynNode::Member(A& ar, const TKey& key, DynNode& c)
 	case K::Str16: kv(c.s16); break;
 	case K::Str32: kv(c.s32); break;
 	case K::WStr: kv(c.ws); break;
+	case K::Ts: kv(c.tp); break;
 	case K::Bin: if constexpr (!flat) { kv(c.bin); } break;
 	case K::Arr: if constexpr (!flat) { ArrView v{ &c }; kv(v); } break;
 	case K::Obj: if constexpr (!flat) { kv(c); } break;
@@ -259,6 +265,7 @@ bool DynNode::Item(A& ar, DynNode& c)
 		case K::Str16: return Serialize(ar, c.s16);
 		case K::Str32: return Serialize(ar, c.s32);
 		case K::WStr: return Serialize(ar, c.ws);
+		case K::Ts: return Serialize(ar, c.tp);
 		case K::Bin: return Serialize(ar, c.bin);
 		case K::Arr: { ArrView v{ &c }; return Serialize(ar, v); }
 		case K::Obj: return Serialize(ar, c);
